@@ -104,7 +104,7 @@ def expand_setdefault(ops):
     optional) plus the final lookup that produced its result."""
     out = []
     for h in ops:
-        if h['op'].get('op') != 'setdefault' or h.get('ret') is None or h['res'][0] != 'ok':
+        if h['op'].get('op') != 'setdefault' or (h.get('ret') is not None and h['res'][0] != 'ok'):
             out.append(h)
             continue
         extra = 0
@@ -117,9 +117,15 @@ def expand_setdefault(ops):
             if not any(n in REMOVERS for n in names):
                 continue
             bret = INF if b.get('ret') is None else b['ret']
-            if b['inv'] < h['ret'] and h['inv'] < bret:
+            hret = INF if h.get('ret') is None else h['ret']
+            if b['inv'] < hret and h['inv'] < bret:
                 extra += 1
         add = {'op': 'add', 'k': h['op']['k'], 'v': h['op']['v']}
+        if h.get('ret') is None:
+            # interrupted call (killed client): any number of its insert attempts may have taken effect
+            for _ in range(min(extra, 5) + 1):
+                out.append(dict(h, op=add, anyres=True, tolerate=False, ret=None))
+            continue
         out.append(dict(h, op=add, anyres=True, tolerate=False))
         for _ in range(min(extra, 5)):
             out.append(dict(h, op=add, anyres=True, tolerate=False, ret=None))
